@@ -22,6 +22,7 @@ type Verdict struct {
 	NonTrivial bool
 	Labels     []string
 	Skip       bool // case outside the domain (counted as inconclusive)
+	Excluded   []string // ids of known findings whose class the generator avoided in this case
 }
 
 type Failure[C any] struct {
@@ -48,6 +49,19 @@ func writeFailure[C any](f *Failure[C]) string {
 	b, _ := json.MarshalIndent(f, "", " ")
 	_ = os.WriteFile(p, b, 0o644)
 	return p
+}
+
+// Abort reports a violation from inside a check that cannot go on (the system under test no
+// longer answers, so neither the case's clean-up nor shrinking can run): the replay file is
+// written, the violation is printed and the test process ends at once.
+func Abort[C any](prop, engine, test string, c C, msg string) {
+	if os.Getenv("VERIF_REPLAY") != "" {
+		fmt.Printf("REPLAY-VIOLATION %s: %s\n", prop, msg)
+		os.Exit(1)
+	}
+	p := writeFailure(&Failure[C]{Prop: prop, Engine: engine, Test: test, Violations: []string{msg}, Case: c})
+	fmt.Printf("VIOLATION %s: %s\nreplay file: %s (not shrunk: the system under test stopped answering)\n", prop, msg, p)
+	os.Exit(3)
 }
 
 // Run executes the spec: a replay when VERIF_REPLAY is set, the generated campaign otherwise.
@@ -89,6 +103,9 @@ func Run[C any](t *testing.T, s Spec[C]) {
 func Record[C any](col *stats.Collector, s Spec[C], c C, v Verdict, fail func(string)) {
 	for _, k := range v.Known {
 		col.KnownHit(k)
+	}
+	for _, k := range v.Excluded {
+		col.Exclude(k)
 	}
 	if v.Skip {
 		col.Inconclusive()
